@@ -40,6 +40,8 @@ def layouts():
     out.append(('flat', lambda: PassSequence([oval(), Transport(label="t1", duration=1), rnd(), Transport(label="t2", duration=2), oval2()]), ip2, False))
     out.append(('nested', lambda: PassSequence([PassSequence([oval(), Transport(label="t1", duration=1)], label="inner"), rnd(),
                                                 PassSequence([Transport(label="t2", duration=0.5), oval2()], label="inner2")]), ip4, False))
+    out.append(('nested-last', lambda: PassSequence([oval(), Transport(label="t1", duration=1),
+                                                     PassSequence([rnd(), Transport(label="t2", duration=1), oval2()], label="finishing line")], label="plant"), ip2, False))
     out.append(('ends-with-transport', lambda: PassSequence([PassSequence([oval(), Transport(label="t1", duration=1)], label="inner"),
                                                              Transport(label="t9", duration=0.5, velocity=1.0)]), ip4, False))
     out.append(('cooling+rotator', lambda: PassSequence([oval(), CoolingPipe(label="cp", duration=1.5, inner_radius=0.05, coolant_volume_flux=1e-3),
@@ -172,7 +174,12 @@ def _check_sequence(chk, name, seq, returned, ip, prec):
                 if has_x and abs(float(disks[-1].out_profile.x) - float(u.out_profile.x)) > 1e-12 * max(1e-3, abs(float(u.length))):
                     fail('disks-x-end', f"{u}: last disk ends at x={float(disks[-1].out_profile.x)}, unit at {float(u.out_profile.x)}")
             if isinstance(u, PassSequence):
+                # (the sequence's own totals are read BEFORE those of its parts: a total must not depend on who asked first)
+                own_totals = (float(u.duration), float(u.length), float(u.power))
                 walk(u.units, public(u.in_profile))
+                leaf_len = lambda q: sum(leaf_len(x) if isinstance(x, PassSequence) else float(x.length) for x in q.units)     # noqa
+                if rel(own_totals[1], leaf_len(u)) > 1e-9:
+                    fail('seq-sums', f"{u}: length {own_totals[1]} (read before the lengths of its parts) is not the sum over all its passes and transports, {leaf_len(u)}")
                 prod = math.prod(float(x.elongation) if hasattr(type(x), 'elongation') else
                                  x.in_profile.cross_section.area / x.out_profile.cross_section.area for x in u.units)
                 if rel(prod, float(u.elongation)) > 3 * prec * len(u.units):
@@ -246,6 +253,11 @@ def run(chk):
             ip2.material = ["other", "steel"]
             ip2.density = 6.9e3
             ip2.heat_batch = "B-2"
+            # between the solves everything is LOOKED at (representations of the sequence, of every unit and profile): what the next solve hands on is
+            # decided by the new incoming profile alone
+            from common import look_at
+            for obj in [seq, ip, ip2] + [x for u_ in seq.units for x in (u_, getattr(u_, 'in_profile', None), getattr(u_, 'out_profile', None)) if x is not None]:
+                look_at(obj, html=False)
             try:
                 returned2 = seq.solve(ip2)
             except Exception as e:       # noqa
